@@ -181,8 +181,28 @@ class Exprs:
             return self.call(d[3], d[1])
         return ("local", l)
 
+    def _variant_def(self, l, variant):
+        """a local assigned in several places, each time a freshly built enum value: the definition that builds
+        `variant` (the only one a `(l as variant).field` read can see), if there is exactly one"""
+        defs = self.defs.get(l, [])
+        if len(defs) < 2 or self.partial.get(l) or l in self.mutref:
+            return None
+        hits = []
+        for d in defs:
+            if d[0] != "stmt" or d[3]["op"] != "agg" or d[3].get("kind") != "adt":
+                return None
+            if d[3].get("variant") == variant:
+                hits.append(d)
+        if len(hits) != 1:
+            return None
+        return self.rvalue(hits[0][3], self.f["locals"][l]["ty"])
+
     def place(self, pl):
         t = self.local(pl["l"])
+        if t == ("local", pl["l"]) and pl["p"] and isinstance(pl["p"][0], dict) and "downcast" in pl["p"][0]:
+            v = self._variant_def(pl["l"], pl["p"][0]["downcast"])
+            if v is not None:
+                t = v
         for e in pl["p"]:
             if isinstance(e, dict) and "idx" in e:
                 t = ("idx", t, self.local(e["idx"]))
